@@ -94,4 +94,109 @@ def rule_units(ctx, rule_id):
             else:
                 r.ok()
     r.require_floor("text-slicing sinks", n, 3)
+    # the dual: a count of *characters* (how many times a char iterator is
+    # stepped) must not be fed a byte measure
+    adv = char_advancers(prog)
+    pvs = prov.Prov(prog, terminal=is_measure, foreign="stop")
+    m = 0
+    for f, k in char_count_params(prog, adv):
+        for c in prog.callers_of(f.path):
+            if k - 1 >= len(c.args):
+                continue
+            m += 1
+            o = pvs.origins(c.fn, c.args[k - 1], ())
+            bytes_ = []
+            for x in o:
+                if x[0] == "call":
+                    g = prog.fns.get(x[1])
+                    cc = g.call_at(x[2]) if g is not None else None
+                    if cc is not None and is_measure(cc) and not is_char_count(cc) \
+                            and _text_measure(cc):
+                        bytes_.append((x[1], cc.res, cc.loc))
+            r.inst("%s: parameter %d of %s counts characters; fed %s" % (
+                c.fn.path, k, f.path, "a BYTE measure" if bytes_ else "no byte measure"))
+            if bytes_:
+                r.fail("%s | byte length used as a character count by=%s" % (c.fn.path, f.path.split("::")[-1]),
+                       "%s passes a byte measure (%s) to %s, which steps that "
+                       "many *characters*: with a multi-byte character in the "
+                       "span it consumes too much text"
+                       % (c.fn.path, ", ".join("%s at %s" % (b[1].split("::")[-1], b[2]) for b in bytes_[:2]), f.path),
+                       where=c.loc)
+            else:
+                r.ok()
+    r.notes.append("character-count parameters checked at %d call site(s)" % m)
     return r
+
+
+def _text_measure(c):
+    """A measure taken on text (str/String/char), i.e. in bytes."""
+    a0 = c.argtys[0] if c.argtys else ""
+    name = (c.res or "").split("::")[-1]
+    if name in ("len_utf8",):
+        return True
+    return ("str" in a0 and "Vec" not in a0) or "std::string::String" in a0 or "CharIndices" in a0
+
+
+def char_advancers(prog):
+    """Functions that consume one character of text per call: they step a
+    Chars/CharIndices iterator (directly, once, outside any loop)."""
+    out = set()
+    for f in prog.hand_fns():
+        if f.is_closure or f.from_expansion:
+            continue
+        steps = [c for c in f.calls() if (c.declared or "").endswith("Iterator::next") and c.argtys
+                 and ("std::str::Chars" in c.argtys[0] or "std::str::CharIndices" in c.argtys[0])]
+        if steps and not any(f.in_any_loop(c.bb) for c in steps):
+            out.add(f.path)
+    return out
+
+
+def char_count_params(prog, adv):
+    """(function, parameter index) where the parameter bounds a counted loop
+    `for _ in 0..n` whose body advances one character per iteration."""
+    out = []
+    for f in prog.hand_fns():
+        if f.is_closure or f.from_expansion:
+            continue
+        loops = f.natural_loops()
+        if not loops:
+            continue
+        for c in f.calls():
+            if not (c.declared or "").endswith("Iterator::next") or not c.argtys \
+                    or "std::ops::Range<usize>" not in c.argtys[0] or not f.in_any_loop(c.bb):
+                continue
+            body = None
+            for h, b in loops.items():
+                if c.bb in b and (body is None or len(b) < len(body)):
+                    body = b
+            if not any((not x.is_ptr) and x.res in adv and x.bb in body for x in f.calls()):
+                continue
+            # the range's end operand
+            cp = f.canon_op(c.args[0])
+            cur = cp
+            for _ in range(4):
+                if cur[0][0] == "call":
+                    cc = f.call_at(cur[0][1])
+                    if cc is None or not cc.args:
+                        break
+                    cur = f.canon_op(cc.args[0])
+                else:
+                    break
+            rng = None
+            if cur[0][0] == "agg":
+                rng = f.stmts(cur[0][1])[cur[0][2]]
+            elif cur[0][0] == "local":
+                for (bb, i, kind, payload) in f.defs().get(cur[0][1], []):
+                    if kind == "rv" and payload[0] == "agg" and payload[1].get("adt") == "std::ops::Range":
+                        rng = ["=", None, payload]
+                    elif kind == "call" and payload.args:
+                        c3 = f.canon_op(payload.args[0])
+                        if c3[0][0] == "agg":
+                            rng = f.stmts(c3[0][1])[c3[0][2]]
+            if rng is None or rng[2][1].get("adt") != "std::ops::Range" or len(rng[2][2]) != 2:
+                continue
+            e = f.canon_op(rng[2][2][1])
+            e = [p for p in e if p not in ("&", "*")]
+            if e and e[0][0] == "arg" and len(e) == 1:
+                out.append((f, e[0][1]))
+    return out
